@@ -115,7 +115,16 @@ func dischargeOne(vc *FuncVC, o *Obligation, dir string, idx int, timeoutS int, 
 	_ = os.WriteFile(file, []byte(q), 0o644)
 	r := &Result{Obl: o, Size: len(q)}
 	var total float64
-	for _, s := range Solvers {
+	for si, s := range Solvers {
+		if o.Planted {
+			// vacuity probe: only a quick look; anything but unsat is fine
+			if si > 0 {
+				break
+			}
+			if timeoutS > 3 {
+				timeoutS = 3
+			}
+		}
 		st, out, secs := runSolver(s, file, timeoutS)
 		total += secs
 		r.Tried = append(r.Tried, fmt.Sprintf("%s:%s:%.2fs", s.Name, st, secs))
